@@ -4,17 +4,32 @@ buffer + pending flag, written after dasp_signal/src/lib.rs -- to two positions 
 source stream, for every capacity >= 1, every ring-buffer start, every schedule whose lead never
 exceeds the capacity).  Tie: correspondence between the model's executable definitions
 (Signal/ForkRun.v, evaluated by coqc) and the real Signal::fork / by_ref / by_rc branches on the same
-schedules; plus the property verdict evaluated directly on the implementation's observations."""
+schedules; plus the property verdict evaluated directly on the implementation's observations.
+Tie 2 (translator, lib/siggen_util.py): on every run translate/ring2coq.py regenerates coq/gen/RingGen.v from
+dasp_ring_buffer/src/lib.rs and translate/sig2coq.py regenerates coq/gen/ForkGen.v from dasp_signal/src/lib.rs
+(Signal::fork, Fork::A / B / by_rc / by_ref, the macro define_branch! expanded for its two invocations: next /
+pending_frames of the four branch types, which inherit trait Signal's default is_exhausted; ring-buffer calls are the
+generated ring methods, the source signal is abstract, RefCell / Rc sharing is state threading);
+Signal/ForkGenEquiv.v proves every generated definition equal to the hand model's on all inputs (c12_gen_agrees), so
+the schedule theorems are about the regenerated model (c12_gen_schedule).  When the translator rejects the source or a
+link of the chain no longer compiles (DESIGN 5.1/5.3) the first broken link is named and the correspondence is the
+search for a failing input: hand model vs crate, the property verdict, then the regenerated model (Signal/ForkGenRun.v)
+vs crate and vs hand model; a failing input gives VIOLATION with a replay file, none gives a VIOLATION ending
+no-failing-input-found that names the lemma / the translator error.
+TESTING ONLY: DASP_SIGNAL_RS / DASP_RING_RS / DASP_SIGNAL_HARNESS=scratch, see lib/siggen_util.py."""
 import json, os, itertools
 import framework as F
+import siggen_util as G
 
 PROP = "C12"
 META = dict(
-    technique="Coq refinement proof (Fork model -> two stream positions) + coqc-evaluated model vs crate correspondence",
-    text="Machine-checked (Coq 8.16.1) refinement of a model of dasp_signal's Fork (shared source with a pull counter, the Bounded ring-buffer model of C06 as the queue, the pending flag; next/pending_frames/by_ref/by_rc written after the source) to a pair of positions in the source stream: for every capacity >= 1, every ring-buffer start index and every finite schedule of operations whose lead never exceeds the capacity, each next() on branch X returns source frame p_X, the pull counter equals max(pa,pb), pending_frames(X) = max(pa,pb) - p_X and the queue holds source frames [min,max); re-splitting is the identity on the shared state; a step that exceeds the lead silently loses the oldest frame (proved, no panic). The model is tied to the crate by running its executable definitions inside coqc on the same schedules (all interleavings to length 12 for capacities 1..3, random 1000-step schedules with sign-flipping leads, by_ref / re-split / by_rc, finite sources, overrunning and malformed cases) and comparing every observation exactly.",
-    note="Trusted: Coq kernel; the hand-written model (RefCell/Rc sharing as one functional state, the source signal as a function nat -> frame with a counter, usize as nat) validated only through the correspondence; harness + python generators. Axioms: none.",
+    technique="Coq refinement proof (Fork model -> two stream positions) + model regenerated from the source by a translator (macro define_branch! expanded, on top of the regenerated ring buffer) and proved equal to the hand model + coqc-evaluated model vs crate correspondence",
+    text="Machine-checked (Coq 8.16.1) refinement of a model of dasp_signal's Fork (shared source with a pull counter, the Bounded ring-buffer model of C06 as the queue, the pending flag; next/pending_frames/by_ref/by_rc written after the source) to a pair of positions in the source stream: for every capacity >= 1, every ring-buffer start index and every finite schedule of operations whose lead never exceeds the capacity, each next() on branch X returns source frame p_X, the pull counter equals max(pa,pb), pending_frames(X) = max(pa,pb) - p_X and the queue holds source frames [min,max); re-splitting is the identity on the shared state; a step that exceeds the lead silently loses the oldest frame (proved, no panic). The model is tied to the crate by running its executable definitions inside coqc on the same schedules (all interleavings to length 12 for capacities 1..3, random 1000-step schedules with sign-flipping leads, by_ref / re-split / by_rc, finite sources, overrunning and malformed cases) and comparing every observation exactly. Second tie: translate/sig2coq.py, a strict translator for the Rust subset the adaptor's methods use, regenerates coq/gen/ForkGen.v from dasp_signal/src/lib.rs on every run (Signal::fork, Fork::A / B / by_rc / by_ref, the macro define_branch! expanded for its two invocations into next / pending_frames of the four branch types, trait Signal's default is_exhausted; ring-buffer calls go to the ring methods regenerated from dasp_ring_buffer/src/lib.rs, the source signal is abstract; anything outside its grammar, a new / missing / overridden method or impl, another item touching the adaptor's types is an error) and Coq proves each generated definition equal to the hand model's on all inputs (c12_gen_agrees), so the schedule theorems are about the regenerated model (c12_gen_schedule); a broken link of the chain is named and the correspondence becomes the search for a failing input.",
+    note="Trusted: Coq kernel; translate/sig2coq.py + translate/ring2coq.py and the vocabularies Signal/SigGenPrim.v, Ring/RingPrim.v (RefCell / Rc / & sharing as state threading: every handle is the one shared state, the borrow flag is not modelled; the source signal as an abstract total state machine), the caller-side glue Signal/ForkGenGlue.v; the hand-written model (RefCell/Rc sharing as one functional state, the source signal as a function nat -> frame with a counter, usize as nat) validated only through the correspondence; harness + python generators. Axioms: none.",
     design="6/C12")
 HEADER = "From Dasp Require Import Signal.ForkRun."
+GEN_HEADER = "From Dasp Require Import Signal.ForkRun Signal.ForkGenRun."
+GEN_SAMPLE = 4000      # cases kept for the search on the regenerated model when the translator tie is broken
 CHECK = "check"
 BIN = "c12"
 
@@ -146,6 +161,62 @@ def walk(r, cap, steps, overrun=False):
     return ops[:steps]
 
 
+# Capacities with every residue structure an index shortcut could depend on (1, 2, powers of two and their
+# neighbours, even non-powers of two, odd composites, primes, multiples of 3 and of 10), next to the small
+# exhaustive range: `& (cap - 1)` instead of `% cap` is right for powers of two only, `if i >= cap {i - cap}`
+# only for one wrap, and so on.  (S-C12 / round 3: a mask guarded by `cap % 2 == 0` went unnoticed because no
+# generated capacity was even without being a power of two.)
+CAPSET = (1, 2, 3, 4, 5, 6, 7, 8, 9, 10, 12, 15, 16, 17, 24, 31, 32, 33, 48, 63, 64, 65, 96, 100, 127, 128, 129,
+          255, 256, 257)
+
+
+def cap_leads(cap):
+    """leads held in the capset family: every value 0..cap for the small capacities, the corners for the others"""
+    if cap <= 10:
+        return list(range(cap + 1))
+    return sorted({0, 1, 2, 3, cap // 2, cap - 2, cap - 1, cap})
+
+
+def lead_phase(x, y, lead, cap, resplit):
+    """branch x gets `lead` frames ahead of y (then, with `resplit`, the pair is dropped and the fork split again
+    by reference: at lead == cap the queue is full at that moment); the lead is held at exactly `lead` while
+    cap + 2 further frames pass through the queue, so the ring's write and read indices go once round the whole
+    storage; y catches up completely and pulls once more (the queue changes hands with nothing in it), x draws
+    level.  The lead never exceeds max(lead, 1) <= cap."""
+    nx, ny = "n" + x, "n" + y
+    ops = [nx] * lead
+    if resplit:
+        ops.append("ref")
+    for _ in range(cap + 2):
+        ops += [ny, nx] if lead >= 1 else [nx, ny]
+    ops += [ny] * lead
+    if resplit:
+        ops.append("ref")
+    ops += [ny, nx]
+    return ops
+
+
+def capset_cases(idx0):
+    """deterministic: every capacity of CAPSET x every lead of cap_leads x split mode (by reference throughout with
+    re-splits at the lead and at level / by_rc from the start / by_rc between the phases) with A leading in one
+    phase and B in the other; each case pushes >= 2 cap + 4 frames: the ring indices wrap at least twice.
+    Capacities <= 10: all six (mode, first leader) combinations per lead; above: one per lead, rotated, so that every
+    capacity meets all six and every (capacity, lead) meets both leaders and a by_ref or by_rc pair (mostly both)."""
+    combos = [(m, x) for x in ("a", "b") for m in ("ref", "rc", "mid")]
+    out, idx = [], idx0
+    for cap in CAPSET:
+        for j, lead in enumerate(cap_leads(cap)):
+            for mode, x in (combos if cap <= 10 else [combos[(j + cap) % 6]]):
+                y = "b" if x == "a" else "a"
+                ops = (["rc"] if mode == "rc" else []) + lead_phase(x, y, lead, cap, mode != "rc")
+                ops += (["rc"] if mode == "mid" else []) + lead_phase(y, x, lead, cap, mode == "ref")
+                start = (0, cap - 1, cap // 2, 1 % cap, (2 * cap) // 3)[idx % 5]
+                out.append(build(dict(kind="capset", nch=1 + (idx // 7) % 2, store=idx % 4, cap=cap, start=start,
+                                      len0=0, src=(0, 1, 3)[idx % 3], fin=-1, ops=ops)))
+                idx += 1
+    return out
+
+
 def sprinkle_splits(r, ops, by_rc):
     """insert re-splits by reference at random points and, optionally, one by_rc after them"""
     ops = list(ops)
@@ -204,12 +275,15 @@ def gen_cases(rng, tier):
                         items.append(build(dict(kind="split", nch=1, store=idx % 4, cap=cap, start=start, len0=0,
                                                 src=idx % 2, fin=-1, ops=ops)))
                         idx += 1
+    # 2b. every capacity of CAPSET, every lead (corner leads for the large ones), both branches leading, by_ref and
+    #     by_rc, re-split with the queue full, ring indices wrapping at least twice
+    items += capset_cases(idx)
     # 3. random long schedules with sign-flipping leads up to the capacity
-    n_rand = 160 if tier == "quick" else 500
+    n_rand = 130 if tier == "quick" else 500
     steps = 1000 if tier == "quick" else 1500
     for k in range(n_rand):
         r = rng.fork(f"walk{k}")
-        cap = r.choice([1, 1, 2, 2, 3, 3, 4, 5, 7, 8, 16, 33, 64])
+        cap = r.choice([1, 1, 2, 2, 3, 3, 4, 5, 7, 8, 16, 33, 64, 6, 10, 12, 24, 100])
         ops = walk(r, cap, steps if not r.chance(1, 4) else r.range(20, 200))
         ops = sprinkle_splits(r, ops, by_rc=r.chance(1, 2))
         items.append(build(dict(kind="walk", nch=r.choice([1, 1, 2]), store=r.below(4), cap=cap, start=r.below(cap),
@@ -217,7 +291,7 @@ def gen_cases(rng, tier):
     # 4. finite sources (signal::from_iter): schedules that run past the end
     for k in range(60 if tier == "quick" else 300):
         r = rng.fork(f"fin{k}")
-        cap = r.choice([1, 2, 3, 4, 8])
+        cap = r.choice([1, 2, 3, 4, 8, 6, 12])
         fin = r.range(0, 30)
         ops = walk(r, cap, r.range(10, 90))
         ops = sprinkle_splits(r, ops, by_rc=r.chance(1, 2))
@@ -226,7 +300,7 @@ def gen_cases(rng, tier):
     # 5. malformed stream: leads beyond the capacity (frames are lost), non-empty / invalid ring buffers
     for k in range(120 if tier == "quick" else 600):
         r = rng.fork(f"over{k}")
-        cap = r.choice([1, 1, 2, 3, 4, 8])
+        cap = r.choice([1, 1, 2, 3, 4, 8, 6, 12, 10, 15])
         ops = walk(r, cap, r.range(10, 120), overrun=True)
         ops = sprinkle_splits(r, ops, by_rc=r.chance(1, 2))
         items.append(build(dict(kind="overrun", nch=r.choice([1, 2]), store=r.below(4), cap=cap, start=r.below(cap),
@@ -271,16 +345,18 @@ def load_corpus():
 
 def main(rep, tier, seed):
     rng = F.Rng(seed)
-    info = F.standard_proof_phase(rep, PROP)
+    info = G.tie_start(rep, PROP, "fork")       # regenerate RingGen.v + ForkGen.v, self-test, proofs, audit
+    broken = info.get("broken")
     # the executable model is not in the closure of props/C12.v: build it on its own so that it
     # still runs (and the failing input can be searched for) when a proof is broken
     mok, mlog = F.coq_make("theories/Signal/ForkRun.vo")
     if not mok:
         rep.violation("model_build", {"kind": "the executable model does not compile", "log": mlog[-4000:]}, no_input=True)
         return finish(rep, info, 0, 0, {}, [])
-    ok, blog, binpath = F.harness_build(BIN)
+    ok, blog, binpath = G.harness_build(BIN)
     if not ok:
         rep.violation("harness_build", {"kind": "harness does not build against /repo", "log": blog[-4000:]}, no_input=True)
+        tie_broken_without_input(rep, info, None)
         return finish(rep, info, 0, 0, {}, [])
     corpus = load_corpus()
     items, n_exh = gen_cases(rng, tier)
@@ -289,7 +365,7 @@ def main(rep, tier, seed):
     K = 61
     items = [items[j] for i in range(K) for j in range(i, len(items), K)]
     outl, bad, errors = F.correspond(binpath, items, HEADER, CHECK, "c12")
-    rep.extra["build_profiles"] = F.profile_phase(rep, "c12", items, outl, profiles=("release",)) if not errors and len(outl) == len(items) else {}
+    rep.extra["build_profiles"] = F.profile_phase(rep, "c12", items, outl, profiles=("release",)) if not errors and len(outl) == len(items) and not G.TEST_HARNESS else {}
     if any(name == "harness" for name, _ in errors):
         idx = find_abort(binpath, items)
         if idx is not None:
@@ -342,7 +418,7 @@ def main(rep, tier, seed):
         _, model = F.coq_eval("c12", HEADER, f"run_case ({small['coq']})")
         rep.violation(f"case{idx}", {
             "kind": "model/implementation disagreement: dasp_signal's Fork does not behave as the model proved to give both branches the identical stream",
-            "case": {k: small[k] for k in KEYS if k in small},
+            "case": {k: small[k] for k in KEYS if k in small}, **({"why": broken} if broken else {}),
             "harness_line": small["line"], "implementation_observations": out, "model_observations": model[-3000:],
             "lead_respected": simulate(small)["valid"],
             "original_case_index": idx, "replay": "./check.py C12 --replay <this file>"})
@@ -363,29 +439,56 @@ def main(rep, tier, seed):
             "case": {k: small[k] for k in KEYS if k in small},
             "harness_line": small["line"], "implementation_observations": out,
             "original_case_index": idx, "replay": "./check.py C12 --replay <this file>"})
+    if broken:
+        search = {"hand_model_vs_crate_failing": len(bad), "property_verdict_failing": len(verdict_bad), "cases": len(items)}
+        found = bool(bad) or bool(verdict_bad)
+        if broken["stage"] not in ("translator", "generated_ring_model") and not errors:
+            def run_one(line):
+                rc, o, _ = F.run_bin(binpath, [line])
+                return o[0] if rc == 0 and len(o) == 1 else None
+            order = sorted(range(len(items)), key=lambda i: (i not in set(bad[:50]), len(items[i]["ops"]) > 400, i % 7, i))[:GEN_SAMPLE]
+            nc, nh, note = G.gen_search(rep, PROP, "fork", GEN_HEADER, [items[i] for i in order], [outl[i] for i in order],
+                                        broken, build, run_one, KEYS)
+            search.update(generated_vs_crate_failing=nc, generated_vs_hand_failing=nh, cases_on_the_generated_model=len(order), note=note)
+            found = found or bool(nc) or bool(nh)
+        info["search"] = search
+        if not found:
+            tie_broken_without_input(rep, info, search)
     dist = {"case_kinds": hist_kind, "capacity_histogram": hist_cap, "ops_histogram": hist_ops,
             "pending_flag_flips_per_case": hist_flips,
             "lead_respecting_wellformed_cases": n_valid, "of_which_lead_reaches_capacity": n_reach,
             "of_which_flag_flips_at_least_twice": n_flip2, "overrunning_schedules": lost,
-            "all_interleavings_cases": n_exh, "corpus_cases": len(corpus),
+            "all_interleavings_cases": n_exh, "capset_capacities": list(CAPSET),
+            "capset_cases_lead_equals_capacity": sum(1 for it in items if it["kind"] == "capset" and simulate(it)["max_lead"] == it["cap"]), "corpus_cases": len(corpus),
             "total_operations": sum(hist_ops.values())}
     samples = []
-    for kind in ("exh", "split", "walk", "finite", "overrun", "ctor"):
+    for kind in ("exh", "split", "capset", "walk", "finite", "overrun", "ctor"):
         samples += [it["line"][:240] for it in items if it["kind"] == kind][:1]
     return finish(rep, info, len(items), len(nontriv), dist, samples, bad, len(verdict_bad))
+
+
+def tie_broken_without_input(rep, info, search):
+    broken = info.get("broken")
+    if broken:
+        rep.violation("translator_tie_broken", dict(
+            kind=broken["message"] + " -- and no failing input was found"
+                 + (": the hand model still agrees with the crate on every case" if search else " (the harness could not be built)")
+                 + (", and so does the regenerated model" if search and search.get("generated_vs_crate_failing") == 0 else ""),
+            search=search, **broken), no_input=True)
 
 
 def finish(rep, info, n, nontriv, dist, samples, bad=(), verdict_bad=0):
     th = info.get("theorems", [])
     cov = {
         "obligations": max(1, len(th)), "discharged": len(th) if info.get("coq_ok") else 0,
-        "checker_cmd": "make -f Makefile.coq props/C12.vo (coqc 8.16.1, full .vo) + Print Assumptions audit",
+        "checker_cmd": "translate/ring2coq.py /repo/dasp_ring_buffer/src/lib.rs > coq/gen/RingGen.v; translate/sig2coq.py fork /repo/dasp_signal/src/lib.rs > coq/gen/ForkGen.v; make -f Makefile.coq props/C12.vo (coqc 8.16.1, full .vo) + Print Assumptions audit",
+        "translator": info.get("translator", {}), "translator_tie_broken": info.get("broken"), "search": info.get("search"),
         "trusted_base": F.TRUSTED_COMMON + [
             "axioms: none (every theorem of props/C12.v is closed under the global context)",
-            "modelled, not verified: RefCell/Rc/& sharing of ForkShared as one functional state threaded through the branch operations; the source signal as a function nat -> frame with a pull counter; usize as nat; the Bounded model of Ring/Bounded.v (tied by C06)"],
+            "modelled, not verified: RefCell/Rc/& sharing of ForkShared as one functional state threaded through the branch operations; the source signal as a function nat -> frame with a pull counter; usize as nat; the Bounded model of Ring/Bounded.v (tied by C06)"] + G.TRUSTED,
         "theorems": th, "axioms_reported": info.get("axioms", []),
         "evaluations": n, "distinct_nontrivial": nontriv,
-        "rule": "all 2^12 next_A/next_B interleavings for capacities 1..3 (ring-buffer start, storage kind, source kind, mono/stereo rotated), re-split/by_rc at every cut of all valid length-5 schedules, 160 random 1000-step lead walks between +-capacity (capacities 1..64) with re-splits and by_rc, finite sources, overrunning and malformed-constructor cases (thorough: plus every lead-respecting interleaving of length 16 for capacities 1..3 and 500 walks of 1500 steps); non-trivial = a well-formed lead-respecting schedule in which the lead reaches the capacity or the pending flag flips at least twice",
+        "rule": "all 2^12 next_A/next_B interleavings for capacities 1..3 (ring-buffer start, storage kind, source kind, mono/stereo rotated), re-split/by_rc at every cut of all valid length-5 schedules, the capset family (30 capacities 1..257 covering powers of two and their neighbours, even non-powers of two, odd composites and primes x every lead 0..cap for cap <= 10, leads {0,1,2,3,cap/2,cap-2,cap-1,cap} above x A leading then B leading x by_ref with re-splits at the lead and at level / by_rc / by_rc between the phases; every case wraps the ring indices at least twice), 130 random 1000-step lead walks between +-capacity (capacities 1..100) with re-splits and by_rc, finite sources, overrunning and malformed-constructor cases (thorough: plus every lead-respecting interleaving of length 16 for capacities 1..3 and 500 walks of 1500 steps); non-trivial = a well-formed lead-respecting schedule in which the lead reaches the capacity or the pending flag flips at least twice",
         "samples": samples, "input_distribution": dist, "disagreements": len(bad),
         "property_verdict_failures_on_implementation": verdict_bad,
         "explanation": "theorems: refinement of the Fork model to two stream positions for all capacities, ring-buffer starts and lead-respecting schedules (frames, pull counter, pending counts, queue contents), re-split identity, behaviour on overrun; tie: the model's executable definitions run by coqc on the same cases as the real crate, all observations compared exactly, and the property's verdict re-evaluated on the implementation's observations",
@@ -396,8 +499,29 @@ def finish(rep, info, n, nontriv, dist, samples, bad=(), verdict_bad=0):
 
 def replay(path):
     j = json.load(open(path))
+    if "case" not in j:
+        print("this replay file names a broken lemma / translator error and has no input; re-run ./check.py C12")
+        print(json.dumps({k: j.get(k) for k in ("kind", "stage", "broken_lemma", "file", "line", "coq_message", "message")}, indent=1))
+        return 1
     it = build(j["case"])
-    ok, blog, binpath = F.harness_build(BIN)
+    ok, blog, binpath = G.harness_build(BIN)
+    if j.get("model") == "generated":
+        tinfo, terr = G.regenerate("fork")
+        if terr:
+            print("translator:", terr)
+            return 1
+        F.coq_make(G.GROUPS["fork"]["run"])
+        rc, out, _ = F.run_bin(binpath, [it["line"]])
+        _, gmodel = F.coq_eval("c12", GEN_HEADER, f"gen_run_case ({it['coq']})")
+        _, hmodel = F.coq_eval("c12", GEN_HEADER, f"run_case ({it['coq']})")
+        print("case:", it["line"])
+        print("implementation:", out)
+        print("generated model:", gmodel)
+        print("hand model:", hmodel)
+        fn = "agree_gen" if j.get("against") == "hand" else "check_gen"
+        bad, errs = F.coq_check_cases("c12_replay", GEN_HEADER, fn, [f"({it['coq']}, {F.zlistlist(F.norm_obs_line(out[0]))})"])
+        print("AGREE" if not bad and not errs else "DISAGREE")
+        return 1 if bad or errs else 0
     rc, out, err = F.run_bin(binpath, [it["line"]])
     _, model = F.coq_eval("c12", HEADER, f"run_case ({it['coq']})")
     print("case:", it["line"])
